@@ -65,6 +65,8 @@ impl Prop for C09 {
             rebuild: 0,
             extra: 0,
             pressure: 0,
+            mass_delete: 0,
+            big: 0,
         };
         let cfg = EvCfg {
             authors: 3,
@@ -73,11 +75,15 @@ impl Prop for C09 {
             extreme_ids: true,
             tag_values: 0,
             tag_names: 0,
+            narrow: false,
         };
         history(w, cfg, tier.pick(30, 100)).prop_map(|ops| Case::History { ops }).boxed()
     }
     fn label_floors(&self) -> Vec<(&'static str, f64)> {
         vec![("replacement", 0.3), ("refused-older", 0.2), ("near-addresses", 0.15)]
+    }
+    fn release_fraction(&self, tier: Tier) -> f64 {
+        tier.pick(0.3, 0.5)
     }
     fn max_shrink_iters(&self) -> u32 {
         400
